@@ -150,6 +150,14 @@ func (c *Cache) collectWireChase(
 		if n >= len(segs) {
 			return 0, false
 		}
+		if n > 0 && c.prefetchQueue != nil && entry.PrefetchEligible() && entry.ShouldPrefetch(c.config.Prefetch) {
+			// A hop that is due for a refresh is the Msg path's: its chase
+			// reaches the hop through a lookup of its own, and that lookup
+			// is what queues the refresh. Composing the hop from bytes
+			// here would leave it to expire where the other path renews
+			// it. (The alias itself was screened by serveWire.)
+			return 0, false
+		}
 		body, flags := entry.wireBodyFor(do)
 		if body == nil {
 			return 0, false
